@@ -71,6 +71,13 @@ def extract(ctx=None):
         raise Unrecognised("monitor closure: compose_event / emit_sync statements not found")
     i_commit = _stmt_index(cb, lambda st: isinstance(st, ast.Expr) and _src(st.value) == "self._commit_sequence_counter(name)")
     facts["monitorCommits"] = i_commit is not None and i_comp < i_commit
+    composer = _src(cb[i_comp].value.func)
+    if composer == "self._descriptors[name].compose_event":
+        facts["monitorUsesCurrentDescriptor"] = True
+    elif composer == "compose_event":
+        facts["monitorUsesCurrentDescriptor"] = False
+    else:
+        raise Unrecognised(f"monitor closure composes with {composer}")
     # --- record_interruption
     ri = _cls_method(btree, "RunBundler", "record_interruption")
     ifs = [st for st in ri.body if isinstance(st, ast.If)]
@@ -280,6 +287,7 @@ def extract(ctx=None):
 
     doc = {
         "monitorCommits": "the monitor closure `emit_event` calls `self._commit_sequence_counter(name)` after `compose_event(...)`",
+        "monitorUsesCurrentDescriptor": "the monitor closure composes with `self._descriptors[name].compose_event` (looked up at call time), not with a composer captured when `monitor` ran",
         "interruptionCommits": "`record_interruption` calls `self._commit_sequence_counter(\"interruptions\")` after composing the event",
         "collectCommitsChanged": "`collect` commits, in a `finally`, every stream whose counter differs from its value on entry",
         "commitRequiresCounter": "`_commit_sequence_counter`: `if stream_name in self._sequence_counters: copy[stream_name] = counters[stream_name]`",
